@@ -144,3 +144,113 @@ Theorem C12_refuted_before_fix :
   map (fun f => fstate_ (getf (fst (release_p istNew 0 0)) f)) [3; 4] = [FResult 1; FPending].
 Proof. exact rekey_refuted_before_fix. Qed.
 Print Assumptions C12_refuted_before_fix.
+
+(* ------------------------------------------------------------------------------------------
+   Appended: hypotheses discharged from reachability (second invariant [WInv], Sched/WaitInv.v,
+   WaitOps.v, WaitLib.v, WaitProofs.v; corollaries Sched/WaitThms.v; counterexample
+   Sched/InheritStale.v, WaitStale.v).
+   [reachable_ne s] (Sched/WaitProofs.v): s is reached from an initial state by an action list
+   satisfying run_ok and run_ne: no eager start ([Spawn SEager]) is executed, and an
+   environment call [ADo op] with op a release / condition wait / set-priority (these act as
+   "task 0") is made only while task 0 is not queued on a PriorityLock. *)
+From Asynkit Require Import Sched.Corr Sched.LockProofs Sched.InheritStale Sched.WaitInv Sched.WaitProofs
+  Sched.WaitThms Sched.WaitStale.
+
+(* C12_key_tracks_eprio in every reachable state: [lwt_ok] is an invariant, and of
+   [blocked_on] only "w is a PriorityTask with a row (f, w) in l that is not runnable" has to
+   be supplied (_waiting_on = l and the uniqueness of the row follow). *)
+Theorem C12_key_tracks_eprio_reachable :
+  forall s t, reachable s ->
+    let s' := propagate_priority s t in
+    (forall u, (effective_priority s' u == effective_priority s u)%Q) /\
+    (forall l, lwt (getl s' l) = lwt (getl s l) /\
+               Permutation (pq_objs (lpq (getl s' l))) (pq_objs (lpq (getl s l))) /\
+               forall e', In e' (arr (lpq (getl s' l))) ->
+                 exists e, In e (arr (lpq (getl s l))) /\ eseq e' = eseq e /\ eobj e' = eobj e /\
+                   ((epri e' == epri e)%Q \/
+                    (epri e' == wprio s' (entry_task (getl s' l) e'))%Q)) /\
+    (forall l, keyed s l -> keyed s' l) /\
+    (forall n w l f, reaches s n t w -> n < efuel s ->
+       is_prio_task s w = true -> In (f, w) (lwt (getl s l)) -> task_is_runnable s w = false ->
+       forall e, In e (arr (lpq (getl s' l))) -> Z.to_nat (eobj e) = f ->
+                 (epri e == effective_priority s' w)%Q).
+Proof. exact propagate_reach_thm. Qed.
+Print Assumptions C12_key_tracks_eprio_reachable.
+
+(* [keyed] is NOT an invariant of reachable states, even without eager starts and on an
+   acyclic wait-for graph: in the reachable state istStale (Sched/InheritStale.v: the run of
+   C12_example continued by cancelling X, which leaves lock 1 held by the queued W1) W1's live
+   entry in lock 0 keeps the inherited key -5 although W1's effective priority is 5 again
+   (nothing re-keys when an effective priority becomes LESS urgent), and H's release() hands
+   lock 0 to W1 although the live waiter W2 (effective priority 3) is `before` W1.  The real
+   asynkit code behaves the same (replayed on /repo/src). *)
+Theorem C12_keyed_not_invariant :
+  reachable_ne istStale /\ ranked istStale /\
+  arr (lpq (getl istStale 0)) = [mkE (-5)%Q 0 3; mkE 3%Q 1 4] /\
+  lwt (getl istStale 0) = [(3, 1); (4, 2)] /\
+  map (fun t => Qred (wprio istStale t)) [1; 2] = [5%Q; 3%Q] /\
+  live istStale (mkE (-5)%Q 0 3) /\ live istStale (mkE 3%Q 1 4) /\
+  ~ keyed istStale 0 /\
+  (* the queued W1 holds lock 1: outside the domain of C12_handover_reachable *)
+  tholding (gett istStale 1) = [1] /\
+  release_p istStale 0 0 = (wake_up_first_p (pre_wake istStale 0 0) 0, RVal 0) /\
+  before (pre_wake istStale 0 0) 0 (mkE 3%Q 1 4) (mkE (-5)%Q 0 3) /\
+  map (fun f => fstate_ (getf (fst (release_p istStale 0 0)) f)) [3; 4] = [FResult 1; FPending].
+Proof.
+  destruct istStale_facts as (A & B & _ & _ & _ & _ & C & _ & D & E & F).
+  destruct istStale_handover as (G & _ & _ & _ & _ & H & _ & J & _).
+  split; [exact reachable_ne_istStale|]. split; [exact istStale_ranked|].
+  split; [exact A|]. split; [exact B|]. split; [exact C|]. split; [exact D|]. split; [exact E|].
+  split; [exact F|]. split; [apply istStale_not_flat|]. split; [exact G|]. split; [exact H|].
+  rewrite G. exact J.
+Qed.
+Print Assumptions C12_keyed_not_invariant.
+
+(* The domain on which the keys ARE up to date: in every state reachable without eager
+   starts, the live entry of a queued task that holds no PriorityLock is keyed by that task's
+   current effective priority (= its own priority; 0 for a plain task).  So [keyed s l] holds
+   whenever the tasks queued on l hold no PriorityLock (no nested locking among the waiters). *)
+Theorem C12_keyed_lock_free_waiters :
+  forall s l, reachable_ne s ->
+    (forall e, In e (arr (lpq (getl s l))) -> live s e ->
+       tholding (gett s (entry_task (getl s l) e)) = [] ->
+       (epri e == wprio s (entry_task (getl s l) e))%Q) /\
+    ((forall f w, In (f, w) (lwt (getl s l)) -> tholding (gett s w) = []) -> keyed s l).
+Proof.
+  intros s l Hr. split; [intros e; now apply reach_ne_key|now apply reach_ne_keyed_flat].
+Qed.
+Print Assumptions C12_keyed_lock_free_waiters.
+
+(* Hand-over in effective-priority order from reachability alone (no keyed / lwt_ok / PQInv
+   hypothesis), on that domain: whenever _wake_up_first resolves a future, it is the future of
+   the (effective priority, arrival)-least live waiter. *)
+Theorem C12_handover_reachable :
+  forall s l f, reachable_ne s ->
+    (forall g w, In (g, w) (lwt (getl s l)) -> tholding (gett s w) = []) ->
+    fstate_ (getf (wake_up_first_p s l) f) <> fstate_ (getf s f) ->
+    exists head rest,
+      arr (lpq (getl s l)) = head :: rest /\ f = Z.to_nat (eobj head) /\
+      fstate_ (getf s f) = FPending /\
+      fstate_ (getf (wake_up_first_p s l) f) = FResult 1 /\
+      (forall e, In e rest -> live s e -> before s l head e) /\
+      (forall g, In g (pq_objs (lpq (getl s l))) -> woken s g = false).
+Proof. exact handover_reach. Qed.
+Print Assumptions C12_handover_reachable.
+
+(* ... and for the hand-over performed by release() itself (the wake-up happens in the
+   intermediate state pre_wake, after the owner has been cleared): if release() by the owner t
+   resolves a future, it is the future of the (effective priority, arrival)-least live waiter,
+   priorities and liveness taken in the state s before the release. *)
+Theorem C12_release_handover_reachable :
+  forall s t l f, reachable_ne s ->
+    llocked (getl s l) = true -> lowner (getl s l) = Some t ->
+    (forall g w, In (g, w) (lwt (getl s l)) -> tholding (gett s w) = []) ->
+    fstate_ (getf (fst (release_p s t l)) f) <> fstate_ (getf s f) ->
+    exists head rest,
+      arr (lpq (getl s l)) = head :: rest /\ f = Z.to_nat (eobj head) /\
+      fstate_ (getf s f) = FPending /\
+      fstate_ (getf (fst (release_p s t l)) f) = FResult 1 /\
+      (forall e, In e rest -> live s e -> before s l head e) /\
+      (forall g, In g (pq_objs (lpq (getl s l))) -> woken s g = false).
+Proof. exact release_handover_reach. Qed.
+Print Assumptions C12_release_handover_reachable.
